@@ -43,7 +43,7 @@ non-overlap of allocations beyond the bump discipline.  Borrow witnesses W4-W7/W
 
 ASSUMPTIONS = ['the borrow checker (for caller-provided buffers)', 'libc::iovec / IoSlice layout equality (compile-time assertion in the crate)']
 
-FLOORS = {'R5.1': 35, 'R5.2': 28, 'R5.3': 6, 'R5.4': 7, 'R5.6': 7, 'R5.7': 7, 'R5.8': 10, 'R5.9': 10}
+FLOORS = {'R5.1': 35, 'R5.2': 28, 'R5.3': 6, 'R5.4': 7, 'R5.6': 7, 'R5.7': 8, 'R5.8': 10, 'R5.9': 10}
 
 CRATES = ['owning_iovec', 'hcobs', 'rough_tlv', 'sliding_deque', 'vouched_time']
 
@@ -329,6 +329,13 @@ def r5_7(cx):
                 over.append((g, pos))
     cx.check(not over, 'anchors-never-overwritten', over[0][0] if over else None, over[0][0].loc(over[0][1].bb) if over else 'owning_iovec/src/global_deque.rs',
              'no method of the deque assigns a whole Anchor into a queued slot', fail_detail='%s overwrites a queued anchor: the chunk it kept alive is released while slices may still point into it' % (short(over[0][0].name) if over else ''))
+    gn = prog.fn(GD + '::new')
+    nw = list(gn.calls(AN + '::new_with_count'))
+    oki = len(nw) == 1 and any(is_call(n, 'len') and n.params() == {1} for n in nw[0].arg(0).walk()) and not any(n.kind == 'binop' for n in nw[0].arg(0).walk()) \
+        and not list(nw[0].arg(0).consts()) or (len(nw) == 1 and any(is_call(n, 'len') and n.params() == {1} for n in nw[0].arg(0).walk())
+                                               and not any(n.kind == 'binop' for n in nw[0].arg(0).walk()) and all(k.info.get('int') is None for k in nw[0].arg(0).consts()))
+    cx.check(oki, 'initial-anchor-count', gn, nw[0].loc() if nw else None, 'the anchor of the initial slices counts exactly slices.len()',
+             fail_detail='GlobalDeque::new gives the initial anchor a count other than slices.len(): draining the initial slices then steals counts from the next anchor')
     cx.check(okp, 'push_anchor-zeroed', pa, None, 'a pushed anchor has its count zeroed (asserted) before it is queued', fail_detail='push_anchor queues an anchor with a non-zero count')
     cl = prog.fn(GD + '::clear')
     okl = len([c for c in cl.calls(SL + '::clear')]) == 1 and len([c for c in cl.calls('VecDeque::clear')]) == 1
